@@ -36,6 +36,7 @@ theorem unmarshal_any_v1 {P : Params} {F : Fmt} (hv : ValidV1 F) (e : Env) (hdr 
         (beGet ((hdr.drop 6).take 4))) 0 pl := by
   obtain ⟨h2, _, _, _, hg, hcov, _⟩ := hv
   unfold unmarshal
+  simp only [crc32_table_eq]
   simp only [hg, h2, hcov, field?, v1GetL, List.find?, hl]
   simp [headPktV1]
 
@@ -48,6 +49,7 @@ theorem unmarshal_any_v2 {P : Params} {F : Fmt} (hv : ValidV2 F) (e : Env) (hdr 
         (beGet ((hdr.drop 5).take 1)) pl := by
   obtain ⟨h2, _, _, _, hg, hcov, _⟩ := hv
   unfold unmarshal
+  simp only [crc32_table_eq]
   simp only [hg, h2, hcov, field?, v2GetL, List.find?, hl]
   simp [headPktV2]
 
